@@ -11,6 +11,9 @@
 (*          the call was made on a fresh set rebuilt along the marked      *)
 (*          history (the contract state goes back to the mark, and the     *)
 (*          walk observed before the call must equal it)                   *)
+(*          An insertion of a node object that an earlier call handed back *)
+(*          with no_dispose ("rc":1) is an "ins" like any other: a NEW     *)
+(*          element identity (fresh id), see SetMap.tla.                   *)
 (*   Begin  a call that never returned (crash, assert, hang): no action    *)
 (*          consumes it                                                    *)
 (*                                                                         *)
